@@ -28,6 +28,7 @@ def configs(tier):
     for nets in (["rbm_am"], ["rbm_am", "rbm_ph"]):
         for sched in (False, True):
             out.append({"part": "fit", "nets": nets, "bases": len(nets) == 2, "scheduler": sched, "data": "tensor"})
+    out.append({"generic": "every shape"})
     return out
 
 
@@ -37,6 +38,9 @@ def canaries(tier):
 
 
 def run_config(ctx, cfg):
+    if cfg.get("generic"):
+        from contracts import gsets
+        return gsets.run(ctx, "C06")
     if cfg["part"] == "fit":
         from lemmas import C12
         return C12.fit_part(ctx, cfg, prop="C06")
@@ -160,5 +164,8 @@ def _vector_to_grads(ctx, cfg):
 
 
 def replay(o):
+    if o["cfg"].get("generic"):
+        from contracts import gsets
+        return gsets.replay("C06", o)
     from drivers import C06 as D
     return D.replay(o["cfg"])
